@@ -709,6 +709,11 @@ class Interp:
                     if len(a[2]) == 1 and len(b[2]) == 1:
                         return boolean([(a[2] == b[2]) == (op == "Eq")])
                 return BOOL_TOP
+            if op in ("BitOr", "BitAnd", "BitXor") and a[0] == "fin" and b[0] == "fin" and a[1] == BOOL and b[1] == BOOL:
+                # `flag |= x` / `flag &= x` on bools, pointwise over the possible values
+                f_ = {"BitOr": lambda x, y: x or y, "BitAnd": lambda x, y: x and y, "BitXor": lambda x, y: x != y}[op]
+                vals = set(bool(f_(bool(x[0]), bool(y[0]))) for x in a[2] for y in b[2])
+                return boolean(sorted(vals))
             known = a[0] == "int" and b[0] == "int" and a[1] is not None and b[1] is not None
             if "WithOverflow" in op:
                 if known and op.startswith("Add") and a[1] + b[1] < 2 ** 31:
